@@ -301,7 +301,12 @@ func (f *fakeInner) begin(endpoint, subject string) (*sfExecution, int) {
 // proxy-side inner provider
 type fakeProxyInner struct{ *fakeInner }
 
-func (f fakeProxyInner) Data() *proxyp.ProviderData { return &proxyp.ProviderData{} }
+// every upstream's provider talks to the same authenticator with the same client, as in a real deployment
+func (f fakeProxyInner) Data() *proxyp.ProviderData {
+	return &proxyp.ProviderData{ClientID: "client", ClientSecret: "secret", ProviderSlug: "idp",
+		ValidateURL: &url.URL{Scheme: "https", Host: "sso-auth.test", Path: "/idp/validate"}, RefreshURL: &url.URL{Scheme: "https", Host: "sso-auth.test", Path: "/idp/refresh"},
+		RedeemURL: &url.URL{Scheme: "https", Host: "sso-auth.test", Path: "/idp/redeem"}, ProfileURL: &url.URL{Scheme: "https", Host: "sso-auth.test", Path: "/idp/profile"}}
+}
 func (f fakeProxyInner) Redeem(string, string) (*sessions.SessionState, error) {
 	return nil, errors.New("unused")
 }
@@ -326,7 +331,7 @@ func (f fakeProxyInner) UserGroups(email string, groups []string, token string) 
 	return out, err
 }
 func (f fakeProxyInner) ValidateSessionState(s *sessions.SessionState, allowed []string) bool {
-	e, id := f.begin("ValidateSessionState", s.AccessToken)
+	e, id := f.begin("ValidateSessionState", s.AccessToken+allowedSuffix(allowed))
 	ok := f.x.Choose("validate-outcome", 2) == 0
 	if ok {
 		if f.grace {
@@ -341,7 +346,7 @@ func (f fakeProxyInner) ValidateSessionState(s *sessions.SessionState, allowed [
 	return ok
 }
 func (f fakeProxyInner) RefreshSession(s *sessions.SessionState, allowed []string) (bool, error) {
-	e, id := f.begin("RefreshSession", s.RefreshToken)
+	e, id := f.begin("RefreshSession", s.RefreshToken+allowedSuffix(allowed))
 	var ok bool
 	var err error
 	switch f.x.Choose("refresh-outcome", 3) {
@@ -440,13 +445,28 @@ func (f fakeAuthInner) RefreshAccessToken(rt string) (string, time.Duration, err
 
 // one caller's operation on a wrapper
 type sfOp struct {
-	Endpoint string
-	Token    string   // access token (validate/revoke) or refresh token (refresh)
-	Email    string   // group questions
-	Groups   []string // group questions
+	Endpoint  string
+	Token     string   // access token (validate/revoke) or refresh token (refresh)
+	Email     string   // group questions
+	Groups    []string // group questions
+	NoRefresh bool     // the session carries no refresh token (legal for every provider)
+	Wrapper   int      // which upstream's provider wrapper the call goes to (proxy side, multi-upstream scenarios)
+	Allowed   []string // that upstream's allowed groups: part of what a validation/refresh asks about
+}
+
+func allowedSuffix(allowed []string) string {
+	if len(allowed) == 0 || (len(allowed) == 1 && allowed[0] == "g") {
+		return ""
+	}
+	g := append([]string(nil), allowed...)
+	sort.Strings(g)
+	return " for groups " + strings.Join(g, ",")
 }
 
 func (o sfOp) subject() string {
+	if o.Allowed != nil {
+		return o.Token + allowedSuffix(o.Allowed)
+	}
 	if o.Endpoint == "UserGroups" || o.Endpoint == "ValidateGroupMembership" {
 		g := append([]string(nil), o.Groups...)
 		sort.Strings(g)
@@ -467,7 +487,8 @@ type sfWrapScenario struct {
 func newSession(o sfOp, thread int) *sessions.SessionState {
 	base := vtime.Epoch.Truncate(time.Second)
 	s := &sessions.SessionState{
-		Email: fmt.Sprintf("user%d@example.com", thread), Groups: []string{"old-group"},
+		// one user with several sessions: anything keyed by the user instead of the token collides
+		Email: "user@example.com", Groups: []string{"old-group"},
 		RefreshDeadline: base.Add(-time.Second), ValidDeadline: base.Add(-time.Second), LifetimeDeadline: base.Add(time.Hour),
 	}
 	switch o.Endpoint {
@@ -475,6 +496,9 @@ func newSession(o sfOp, thread int) *sessions.SessionState {
 		s.AccessToken, s.RefreshToken = o.Token, "refresh-of-"+o.Token
 	default:
 		s.RefreshToken, s.AccessToken = o.Token, "old-access-token"
+	}
+	if o.NoRefresh {
+		s.RefreshToken = ""
 	}
 	return s
 }
@@ -484,9 +508,13 @@ func sfWrapExecute(x *explore.Exec, sc sfWrapScenario) (*sfTrace, *sched.Sched) 
 	s := sched.Run(x, func(s *sched.Sched) { s.FineGrained = sc.Fine }, func(s *sched.Sched) {
 		inner := &fakeInner{s: s, x: x, tr: tr, grace: sc.Grace}
 		var pw *proxyp.SingleFlightProvider
+		var pws []*proxyp.SingleFlightProvider
 		var aw *authp.SingleFlightProvider
 		if sc.Side == "proxy" {
-			pw = proxyp.NewSingleFlightProvider(fakeProxyInner{inner}, nil)
+			// one wrapper per upstream, built the way proxy.New builds them
+			for i := 0; i < 2; i++ {
+				pws = append(pws, proxyp.NewSingleFlightProvider(fakeProxyInner{inner}, nil))
+			}
 		} else {
 			aw = authp.NewSingleFlightProvider(fakeAuthInner{inner})
 		}
@@ -496,6 +524,13 @@ func sfWrapExecute(x *explore.Exec, sc sfWrapScenario) (*sfTrace, *sched.Sched) 
 				for _, o := range ops {
 					c := &sfCall{Thread: t, Endpoint: o.Endpoint, Subject: o.subject()}
 					groups := append([]string(nil), o.Groups...)
+					allowed := []string{"g"}
+					if o.Allowed != nil {
+						allowed = o.Allowed
+					}
+					if pws != nil {
+						pw = pws[o.Wrapper]
+					}
 					switch o.Endpoint {
 					case "ValidateSessionState", "RefreshSession", "RefreshSessionIfNeeded", "Revoke":
 						c.Sess = newSession(o, t)
@@ -504,9 +539,9 @@ func sfWrapExecute(x *explore.Exec, sc sfWrapScenario) (*sfTrace, *sched.Sched) 
 					tr.calls = append(tr.calls, c)
 					switch {
 					case pw != nil && o.Endpoint == "ValidateSessionState":
-						c.Result = fmt.Sprint(pw.ValidateSessionState(c.Sess, []string{"g"}))
+						c.Result = fmt.Sprint(pw.ValidateSessionState(c.Sess, allowed))
 					case pw != nil && o.Endpoint == "RefreshSession":
-						ok, err := pw.RefreshSession(c.Sess, []string{"g"})
+						ok, err := pw.RefreshSession(c.Sess, allowed)
 						c.Result = fmt.Sprintf("%v/%v", ok, err)
 					case pw != nil && o.Endpoint == "UserGroups":
 						g, err := pw.UserGroups(o.Email, groups, "tok")
@@ -561,7 +596,14 @@ func sfScenarios(c *fw.Ctx) ([]sfGroupScenario, []sfWrapScenario) {
 	v := func(tok string) sfOp { return sfOp{Endpoint: "ValidateSessionState", Token: tok} }
 	r := func(ep, tok string) sfOp { return sfOp{Endpoint: ep, Token: tok} }
 	q := func(ep, email string, g ...string) sfOp { return sfOp{Endpoint: ep, Email: email, Groups: g} }
+	nr := func(o sfOp) sfOp { o.NoRefresh = true; return o }
+	up := func(o sfOp, w int, allowed ...string) sfOp { o.Wrapper, o.Allowed = w, allowed; return o }
 	wraps := []sfWrapScenario{
+		{Name: "proxy/two-upstreams-same-token", Side: "proxy", Ops: [][]sfOp{{up(v("T"), 0, "admins")}, {up(v("T"), 1, "staff")}, {up(v("T"), 0, "admins")}}, Bound: b3},
+		{Name: "proxy/two-upstreams-refresh", Side: "proxy", Ops: [][]sfOp{{up(r("RefreshSession", "R"), 0, "admins")}, {up(r("RefreshSession", "R"), 1, "staff")}}, Bound: -1},
+		{Name: "proxy/validate-without-refresh-token", Side: "proxy", Ops: [][]sfOp{{nr(v("T"))}, {nr(v("U"))}, {nr(v("T"))}}, Bound: b3},
+		{Name: "auth/revoke-without-refresh-token", Side: "auth", Ops: [][]sfOp{{nr(r("Revoke", "T"))}, {nr(r("Revoke", "U"))}, {nr(r("Revoke", "T"))}}, Bound: b3},
+		{Name: "auth/validate-without-refresh-token", Side: "auth", Ops: [][]sfOp{{nr(v("T"))}, {nr(v("U"))}}, Bound: -1},
 		{Name: "proxy/validate-same-token", Side: "proxy", Ops: [][]sfOp{{v("T")}, {v("T")}, {v("U")}}, Bound: b3},
 		{Name: "proxy/validate-grace", Side: "proxy", Grace: true, Ops: [][]sfOp{{v("T")}, {v("T")}}, Bound: -1},
 		{Name: "proxy/refresh", Side: "proxy", Ops: [][]sfOp{{r("RefreshSession", "R")}, {r("RefreshSession", "R")}, {r("RefreshSession", "S")}}, Bound: b3},
